@@ -109,7 +109,7 @@ EMPTY_OK = {b"/empty.txt", b"/emptydir"}
 # names tree (C05 / C06): every name of the alphabet as every kind of object
 # ---------------------------------------------------------------------------
 
-NAMES = [b"plain", b"sp ace", b"a&b", b"a?b", b"a|b", b"a#b", b"a%41", b"\xc3\xa9", b"\xae", b"a+b", b"a;b=c", b"a:b", b"a\\b",
+NAMES = [b"faq:general", b"re: hello", b"mailto:x", b"plain", b"sp ace", b"a&b", b"a?b", b"a|b", b"a#b", b"a%41", b"\xc3\xa9", b"\xae", b"a+b", b"a;b=c", b"a:b", b"a\\b",
          b'q"uote', b"lt<gt>", b"a'b", b" lead", b"-dash", b"a%2Fb", b"a=b&c=d", b"UPPER", b"a,b", b"(p)", b"[b]", b"{c}", b"a^b`c", b"a$b", b"a@b", b"a!b", b"a*b"]
 URL_ONLY_NAMES = [b"tab\tname", b"lf\nname", b"trail "]
 
@@ -140,6 +140,17 @@ def names_spec(names=None, full=True, depth2=True):
         if full:
             zips[n + b".zip"] = make_zip([("m.txt", b"member\n"), ("d/e.txt", b"e\n")])
     spec[b"target.txt"] = b"link target\n"
+    # top-level names that begin like the WAP prefix
+    spec[b"wapiti.txt"] = b"wapiti\n"
+    spec[b"wapping"] = {b"child.txt": b"c\n", b"wap": {b"x.txt": b"x\n"}}
+    # (a root-level entry named exactly like the configured WAP prefix is a reserved name, like URL:)
+    # a gophermap with one RELATIVE link per name
+    gmrel = {b"gophermap": b"".join(b"0rel " + n.replace(b"\t", b" ") + b"\t" + n + b".txt\n" for n in names if b"\t" not in n and b"\n" not in n and not n.startswith(b" ") and not n.endswith(b" "))
+             + b"1reldir\tsub dir\n"}
+    for n in names:
+        gmrel[n + b".txt"] = b"rel target\n"
+    gmrel[b"sub dir"] = {b"x.txt": b"x\n"}
+    spec[b"f_gmrel"] = gmrel
     spec[b"f_files"] = files
     spec[b"f_noext"] = noext
     spec[b"f_dirs"] = dirs
